@@ -17,7 +17,7 @@ from concurrent.futures import ThreadPoolExecutor
 from . import core
 from .props import prop, job, mc_all, Q, T
 
-FORBIDDEN = ("Different", "OOB", "Crash", "Hang", "Leak", "HugeAlloc")
+FORBIDDEN = ("Different", "OOB", "Crash", "Hang", "Leak", "HugeAlloc", "SizeMismatch")
 
 
 def is_trivial(e):
